@@ -12,12 +12,23 @@ Fixpoint mentions (e : expr) (i : nat) : bool :=
   | EVar j => Nat.eqb j i
   | EBin _ a b | ECmp _ a b | EAnd a b | EOr a b | ECond a b => mentions a i || mentions b i
   | ENot a | ENeg a | EProj a _ => mentions a i
+  | ESel b _ => Nat.eqb b i
+  | EAny _ b c | EAll _ b c => Nat.eqb b i || mentions c i
+  end.
+
+Fixpoint bmentions (b : bexpr) (i : nat) : bool :=
+  match b with
+  | BLit ms => existsb (fun se => mentions (snd se) i) ms
+  | BRef j => Nat.eqb j i
+  | BMerge a c => bmentions a i || bmentions c i
+  | BArith _ a x | BFilter _ a x _ => bmentions a i || mentions x i
+  | BGate c a => mentions c i || bmentions a i
   end.
 
 Definition decl_mentions (d : decl) (i : nat) : bool :=
-  match d with DIn _ _ => false | DSig e | DInt e => mentions e i end.
+  match d with DIn _ _ | DSource _ => false | DSig e | DInt e => mentions e i | DBundle b => bmentions b i end.
 
-Definition is_sig_decl (d : decl) : bool := match d with DInt _ => false | _ => true end.
+Definition is_sig_decl (d : decl) : bool := match d with DInt _ | DSource _ => false | _ => true end.
 
 (* is the value of e a compile-time constant (no input, no signal variable)? *)
 Fixpoint const_expr (ds : list decl) (fuel : nat) (e : expr) : bool :=
@@ -34,6 +45,7 @@ Fixpoint const_expr (ds : list decl) (fuel : nat) (e : expr) : bool :=
                 end
     | EBin _ a b | ECmp _ a b | EAnd a b | EOr a b | ECond a b => const_expr ds f a && const_expr ds f b
     | ENot a | ENeg a | EProj a _ => const_expr ds f a
+    | ESel _ _ | EAny _ _ _ | EAll _ _ _ => false
     end
   end.
 
